@@ -380,7 +380,7 @@ def run_c04(chk, prog):
         chk.ob("C04.O2", "Frame->Message->Frame is the identity on row %s" % rowname, ok, key="FMF:%s:%s:%s" % (kind, sub, cell_key(r)), where=loc(mfn["span"]), detail=why)
         if ok:
             chk.sample("cell %s -> %s -> %s" % (cell_desc(r), fmt_term(r["value"]), fmt_term(rets[0].value)))
-    chk.floor("C04.O2", "rows of Frame->Message composed with Message->Frame", n_id, 39)
+    chk.floor("C04.O2", "rows of Frame->Message composed with Message->Frame", n_id, 32)
     chk.floor("C04.O1", "rows of Message->Frame", len(mf["rows"]), 32)
 
 
